@@ -25,7 +25,8 @@ theorem durationEncode_eq (field : Int) (d : Int) (c : Bytes) (hd : Time.I64 d) 
       = .ok (d, c ++ GoTime.secNanosMessage field (Time.durSplit d).1 (Time.durSplit d).2, true) := by
   first
   | (unfold GoSrc.Pico.durationEncode Time.durSplit GoTime.nanoseconds
-     simp [wrapS64_eq, wrapS32_eq, Time.nano])
+     simp [wrapS64_eq, wrapS32_eq, Time.nano]
+     done)
   | -- the source computes the split some other way: compare with the exact quotient and remainder
     (rw [durSplit_eq d hd]
      have f := tdiv_tmod_facts d
